@@ -900,18 +900,33 @@ def capacity_rules(fb, R):
                 ok = True     # another buffer's capacity
             elif r.get('k') == 'var' and r.get('d') in pd:
                 d = r['d']
-                # (a) misalignment of the parameter throws   (b) the parameter was re-assigned from calculate_capacity before the store
-                for b in fn.blocks.values():
-                    if 'cond' not in b or len(b['succs']) != 2:
-                        continue
-                    cn = fn.sn(b['cond'])
-                    txt = fn.expr(b['cond'])
-                    uses = [fn.nodes[y] for y in fn.subtree(b['cond']) if fn.nodes[y].get('k') == 'var' and fn.nodes[y].get('d') == d]
-                    mods = [fn.nodes[y] for y in fn.subtree(b['cond']) if fn.nodes[y].get('k') == 'binop' and fn.nodes[y].get('op') == '%']
-                    if uses and mods and cn is not None and cn.get('k') == 'binop' and cn.get('op') in ('!=', '=='):
-                        tb = b['succs'][0] if cn['op'] == '!=' else b['succs'][1]
-                        if tb is not None and any(fn.nodes[e].get('k') == 'throw' for e in fn.blocks[tb]['elems']):
-                            ok = True
+
+                # (a) misalignment of the parameter throws (in this function or in a Buffer helper the parameter is handed to)
+                def misalign_throws(g, dd, depth=0):
+                    for b in g.blocks.values():
+                        if 'cond' not in b or len(b['succs']) != 2:
+                            continue
+                        cn = g.sn(b['cond'])
+                        uses = [g.nodes[y] for y in g.subtree(b['cond']) if g.nodes[y].get('k') == 'var' and g.nodes[y].get('d') == dd]
+                        mods = [g.nodes[y] for y in g.subtree(b['cond']) if g.nodes[y].get('k') == 'binop' and g.nodes[y].get('op') == '%']
+                        if uses and mods and cn is not None and cn.get('k') == 'binop' and cn.get('op') in ('!=', '=='):
+                            tb = b['succs'][0] if cn['op'] == '!=' else b['succs'][1]
+                            if tb is not None and any(g.nodes[e].get('k') == 'throw' for e in g.blocks[tb]['elems']):
+                                return True
+                    if depth < 2:
+                        for c_ in g.all_nodes():
+                            if c_.get('k') != 'call' or not (c_.get('q') or '').startswith(BUF + '::'):
+                                continue
+                            for ai, a_ in enumerate(c_.get('args', [])):
+                                av = g.sn(a_)
+                                if av is not None and av.get('k') == 'var' and av.get('d') == dd:
+                                    for h in fb.fns(c_['q']):
+                                        if len(h.params) > ai and misalign_throws(h, h.params[ai]['d'], depth + 1):
+                                            return True
+                    return False
+                if misalign_throws(fn, d):
+                    ok = True
+                # (b) the parameter was re-assigned from calculate_capacity before the store
                 for a in fn.all_nodes():
                     if a.get('k') == 'assign' and a.get('op') == '=' and (fn.sn(a['lhs']) or {}).get('k') == 'var' and fn.sn(a['lhs']).get('d') == d:
                         ra = fn.sn(a['rhs'])
